@@ -55,14 +55,15 @@ Shape(k, n) ==
     [] k = 17 -> <<DQ>> \o Rep(SP, n) \o <<DQ, AT>> \o xcom
     [] k = 18 -> <<97, AT, LBR>> \o TagIPv6 \o RepSeq(<<49, COLON>>, n \div 2) \o <<RBR>>
 NS == 18
-Sizes == IF Tier = 1 THEN {0, 1, 300, 4096} ELSE {0, 1, 2, 63, 64, 65, 253, 254, 255, 256, 1024, 16384, 65536}
+\* Tier 3: only the shapes at one size above the 64 KiB stack the driver is then run under (input-sized stack buffers)
+Sizes == IF Tier = 1 THEN {0, 1, 300, 4096} ELSE IF Tier = 3 THEN {70000} ELSE {0, 1, 2, 63, 64, 65, 253, 254, 255, 256, 1024, 16384, 65536}
 ScaleN == IF Tier = 1 THEN 4096 ELSE 16384
 ScaleShapes == IF Tier = 1 THEN {1, 3, 6, 8, 12, 13, 16} ELSE 1..NS
 
 Init == ph = 0 /\ x = 0 /\ y = 0
-Next == \/ ph = 0 /\ \E t \in 1..NT : \E b \in 1..255 : ph' = 1 /\ x' = t /\ y' = b
+Next == \/ ph = 0 /\ Tier # 3 /\ \E t \in 1..NT : \E b \in 1..255 : ph' = 1 /\ x' = t /\ y' = b
         \/ ph = 0 /\ \E k \in 1..NS : \E n \in Sizes : ph' = 2 /\ x' = k /\ y' = n
-        \/ ph = 0 /\ \E k \in ScaleShapes : \E m \in {1, 2, 4} : ph' = 3 /\ x' = k /\ y' = m * ScaleN
+        \/ ph = 0 /\ Tier # 3 /\ \E k \in ScaleShapes : \E m \in {1, 2, 4} : ph' = 3 /\ x' = k /\ y' = m * ScaleN
 Inv == CASE ph = 1 -> EmailAllConform(O, Hole(x, y)) /\ PrintT(ToJson(EmailVec(0, O, Hole(x, y))))
          [] ph = 2 -> PrintT(ToJson(<<13, x, Len(Shape(x, y))>> \o Shape(x, y)))
          [] ph = 3 -> PrintT(ToJson(<<14, x, Len(Shape(x, y))>> \o Shape(x, y)))
